@@ -23,7 +23,6 @@ func c03Stages(thorough bool) []stage {
 	st := []stage{
 		{"local", func(e error) error { return e }},
 		{"K", func(e error) error { d, _ := tm.HopK(e); return d }},
-		{"KK", func(e error) error { d, _ := tm.HopK(e); d, _ = tm.HopK(d); return d }},
 		{"atU(all)", func(e error) error { w := tm.Encode(e); return tm.DecodeU(w, tm.WireKeys(w)) }},
 		{"U(all)>K", func(e error) error {
 			w := tm.Encode(e)
@@ -34,6 +33,7 @@ func c03Stages(thorough bool) []stage {
 		{"Ubar", func(e error) error { return tm.Decode(tm.HidePayloadTypes(tm.Encode(e))) }},
 	}
 	if thorough {
+		st = append(st, stage{"KK", func(e error) error { d, _ := tm.HopK(e); d, _ = tm.HopK(d); return d }})
 		st = append(st, stage{"KKK", func(e error) error {
 			d, _ := tm.HopK(e)
 			d, _ = tm.HopK(d)
@@ -45,9 +45,9 @@ func c03Stages(thorough bool) []stage {
 }
 
 func runC03(c *core.Ctx, r *core.Result) {
-	p := plan{fullDepth: 2, coreDepth: 3, strDepth: 2, alphabet: tm.HOSTILE}
+	p := plan{fullDepth: 2, coreDepth: 3, strDepth: 2, alphabet: tm.HOSTILE, aliasSides: true}
 	if c.Thorough() {
-		p = plan{fullDepth: 3, coreDepth: 4, strDepth: 2, pairDepth: 0, alphabet: tm.HOSTILE}
+		p = plan{fullDepth: 3, coreDepth: 4, strDepth: 2, pairDepth: 0, alphabet: tm.HOSTILE, aliasSides: true}
 	}
 	stages := c03Stages(c.Thorough())
 	var sn []string
